@@ -7,8 +7,8 @@ import (
 
 	"cosmossdk.io/math"
 	sdk "github.com/cosmos/cosmos-sdk/types"
-	pairingtypes "github.com/lavanet/lava/v5/x/pairing/types"
 	stakingtypes "github.com/cosmos/cosmos-sdk/x/staking/types"
+	pairingtypes "github.com/lavanet/lava/v5/x/pairing/types"
 	subscriptiontypes "github.com/lavanet/lava/v5/x/subscription/types"
 	"github.com/lavanet/lava/v5/zz_verif/simrt"
 )
